@@ -192,7 +192,7 @@ spec("C13", "Non-interference through shared inputs",
      not_decided="value-level effects of reads; helpers reached only through unresolved dynamic calls")
 
 spec("C14", "sync_properties changes exactly the addressed property",
-     [F.rule_file1_input, F.rule_file7, O.rule_pairs_all, named(M.rule_modf, "rule_modf_sync_properties", workers=("sync_properties.sync_properties",)), M.rule_modf2, CLI.rule_cli1, det3("sync_properties", "sync_properties.sync_properties")],
+     [F.rule_file1_input, F.rule_file7, O.rule_pairs_all, named(M.rule_modf, "rule_modf_sync_properties", workers=("sync_properties.sync_properties",)), M.rule_modf2, CLI.rule_cli1, A.rule_align_idx, det3("sync_properties", "sync_properties.sync_properties")],
      "Necessary conditions: (FILE-1) no value derived from the input filename reaches the path of a write sink; (FILE-7) the single write of the output file comes after all "
      "pairs and every returning path after the transformer ran tests `.replaced` with a raising failing branch; (MOD-F) only the addressed node is field-mutated on the "
      "read->write path; (MOD-F2) the node taken from the input tree is copied before it is mutated/grafted; (CLI-1) CLI dests bind to the worker's signature. (DET-3, scoped) no function on this property's code path writes state that outlives the call (module globals/objects, function or class attributes, mutated mutable defaults, memoised mutable results): the conversion is not history-dependent.",
@@ -201,7 +201,7 @@ spec("C14", "sync_properties changes exactly the addressed property",
      not_decided="that the addressed node is the right one (C15), eval mode (executes the input module)")
 
 spec("C15", "Dotted locations",
-     [named(V.rule_visit3, "rule_visit3", location_inductive=V.location_is_inductive), V.rule_visit4, V.rule_visit4b, V.rule_visit2, V.rule_visit6],
+     [named(V.rule_visit3, "rule_visit3", location_inductive=V.location_is_inductive), V.rule_visit4, V.rule_visit4b, V.rule_visit2, V.rule_visit6, A.rule_align_idx],
      "Necessary conditions: (VISIT-3) typestate over the CFG of find_in_ast: a path segment is consumed only after the previous one was matched and a node is answered only "
      "in state MATCHED; (VISIT-3b) answers decided by `_location == search` alone are only accepted while the annotation is inductive; (VISIT-4) every `_location` is built "
      "from the parent's location; (VISIT-2) replace at most once; (VISIT-6) locations are compared by exact equality only.",
